@@ -97,6 +97,12 @@ dbus_bool_t   _dbus_auth_is_supported_mechanism(DBusString           *name);
 DBUS_PRIVATE_EXPORT
 dbus_bool_t   _dbus_auth_dump_supported_mechanisms(DBusString        *buffer);
 
+#ifdef DBUS_VERIF
+DBUS_PRIVATE_EXPORT
+dbus_bool_t   _dbus_verif_auth_dump          (DBusAuth               *auth,
+                                              DBusString             *out);
+#endif
+
 DBUS_END_DECLS
 
 #endif /* DBUS_AUTH_H */
